@@ -35,6 +35,8 @@ class DocIdSet(object):
     """
 
     def __eq__(self, other):
+        if len(self) != len(other):
+            return False
         for a, b in izip(self, other):
             if a != b:
                 return False
